@@ -25,6 +25,11 @@ impl FeoxStore {
         self.version_clock.shard_index(key)
     }
 
+    /// Current value of the version-clock shard the key maps to.
+    pub fn verif_clock_last(&self, key: &[u8]) -> u64 {
+        self.version_clock.shard(key).load(Ordering::Relaxed)
+    }
+
     pub fn verif_cache(&self) -> Option<&Arc<crate::core::cache::ClockCache>> {
         self.cache.as_ref()
     }
